@@ -305,4 +305,54 @@ example : errIs (render ev1 "{x") .parse = true ∧ errIs (render ev1 "}") .pars
     errIs (render ev1 "{x:d}") .spec = true ∧ errIs (render ev1 "{x!z}") .conversion = true ∧
     errIs (render ev1 "{}{0}") .numbering = true := by decide
 
+private def ev2 : String → Outcome := fun e =>
+  if e = "s" then ⟨false, false, "str", "text", .str "text", false⟩
+  else if e = "wd" then ⟨false, false, "int", "7", .int 7, false⟩
+  else if e = "0" then ⟨false, false, "int", "0", .int 0, false⟩
+  else if e = "1" then ⟨false, false, "int", "1", .int 1, false⟩
+  else ⟨true, true, "NameError", "name 'nope' is not defined", .other, false⟩
+/-! ### replacement fields inside a format spec -/
+
+/-- **nested field** — a field whose format spec is itself a field, `{expr:{w}}` (any expression texts, any
+    conversion, any oracle): the text of `expr` (converted) is formatted with the TEXT OF `w` as its spec, and the
+    message carries two LOG watches, `expr` first, `w` second — the spec's field is evaluated in the paused frame like
+    any other field. -/
+theorem c16_nested_spec (ev : String → Outcome) (nm w : List Char) (cv : Option Char)
+    (hn : nm ≠ []) (hnd : isDigits nm = false) (hw : nameOk false w = true) (hwn : w ≠ []) (hwd : isDigits w = false) :
+    renderNested ev [.field nm cv ('{' :: (w ++ ['}']))] =
+      match convert cv (ev (String.ofList nm)).text.toList with
+      | .error e => .error e
+      | .ok obj =>
+        match formatStr obj (ev (String.ofList w)).text.toList with
+        | .error e => .error e
+        | .ok t => .ok ⟨logPrefix ++ String.ofList t ++ logSuffix, [String.ofList nm, String.ofList w]⟩ := by
+  have hp : parseChars ('{' :: (w ++ ['}'])) = .ok [.field w none []] := by
+    have h := parse_unparse [.field w none []] (by
+      intro s hs
+      simp only [List.mem_singleton] at hs
+      subst hs
+      simp [Seg.wf, hw, noBrace])
+    simpa [unparse, unparseSeg, convPart, specPart, normalise, norm] using h
+  have hne : nm.isEmpty = false := by cases nm <;> simp_all
+  have hwe : w.isEmpty = false := by cases w <;> simp_all
+  have hp0 : parseChars [] = .ok [] := by rfl
+  unfold renderNested
+  simp only [renderWith, fieldExpr, hne, hnd, Bool.false_eq_true, if_false]
+  cases hc : convert cv (ev (String.ofList nm)).text.toList with
+  | error e => simp
+  | ok obj =>
+    simp only [renderLvl, hp, renderWith, fieldExpr, hwe, hwd, Bool.false_eq_true, if_false, convert, hp0]
+    have hf0 : ∀ t : List Char, formatStr t [] = .ok t := by intro t; simp [formatStr]
+    simp only [hf0, List.append_nil]
+    cases hf : formatStr obj (ev (String.ofList w)).text.toList with
+    | error e => simp
+    | ok t => simp
+
+/-- non-vacuity, and the rest of the nested grammar on concrete templates (through the parser): width from a field,
+    automatic numbering running on through the spec, a failing spec field (its error text is no valid spec), a field
+    three levels deep -/
+example : okIs (render ev2 "{s:>{wd}}|{}{s:{}}") ⟨"[deep]    text|0text", ["s", "wd", "0", "s", "1"]⟩ = true ∧
+    errIs (render ev2 "{s:{nope}}") .spec = true ∧ errIs (render ev2 "{s:{wd:{p}}}") .recursion = true ∧
+    errIs (render ev2 "{s:{wd!x}}") .conversion = true := by decide
+
 end C16
